@@ -337,7 +337,10 @@ impl Model {
                     match p.status {
                         PStatus::InFlight => side += p.amount as i128,
                         PStatus::ErrAcked | PStatus::TimedOut => {
-                            if !self.consumed.contains(&(p.channel.clone(), p.seq)) {
+                            // refunded to the contract: it still backs the total only while the contract has it
+                            // on record as awaiting re-send (a refund nobody can re-send has left the staker side)
+                            let on_record = p.channel != post.channel() || post.queue.iter().any(|x| x.seq == p.seq && (x.status == "ack_failure" || x.status == "timed_out"));
+                            if !self.consumed.contains(&(p.channel.clone(), p.seq)) && on_record {
                                 side += p.amount as i128
                             }
                         }
@@ -586,6 +589,19 @@ impl Model {
                                 self.seen("C05", format!("withdraw|{}|{}", if bo.received < bo.expected { "short" } else if bo.received == bo.expected { "exact" } else { "long" }, bo.count.min(4)));
                             }
                             _ => v.push(Viol { prop: "C05", what: format!("withdraw from batch {b} which is not received succeeded") }),
+                        }
+                    }
+                    if self.on("C02") && open {
+                        // "paid in full": the whole pro-rata entitlement, not a unit less
+                        if let Some(bo) = bo {
+                            if bo.status == "received" {
+                                let own = self.reqs.get(&key).map(|r| r.amount).unwrap_or(0);
+                                let want = prim::mul_div_floor(bo.received, own, bo.total);
+                                let got: u128 = sends.iter().filter(|x| x.0 == op_sender).map(|x| x.1).sum();
+                                if want.map(|w| got < w).unwrap_or(false) {
+                                    v.push(Viol { prop: "C02", what: format!("entitled withdraw from batch {b} paid {got}, the entitlement floor({}*{}/{}) is {:?}", bo.received, own, bo.total, want) });
+                                }
+                            }
                         }
                     }
                     if let Some(r) = self.reqs.get_mut(&key) {
@@ -993,6 +1009,14 @@ impl Model {
                 }
             } else if pre_w.same_state(&sc.w).is_some() {
                 v.push(Viol { prop: "C07", what: "failed recovery changed state".into() });
+            } else if !forced && pre_w.fault_submit.is_none() && pre_w.fault_nodata.is_none() && !res.err.contains("sim:") {
+                // the other direction: refundable transfers of that receiver in one denom CAN be re-sent by anybody
+                let elig: Vec<&QObs> = pre.queue.iter().filter(|p| p.receiver == want_receiver && (p.status == "ack_failure" || p.status == "timed_out")).collect();
+                let page: Vec<&&QObs> = elig.iter().take(if paginated { 10 } else { usize::MAX }).collect();
+                let receiver_ok = matches!(prim::bech32_decode(&want_receiver), Some((h, _, _)) if h == pre.native_prefix());
+                if !page.is_empty() && page.iter().all(|p| p.denom == page[0].denom) && receiver_ok && page.iter().all(|p| sc.w.open_channels.contains(&pre.channel())) {
+                    v.push(Viol { prop: "C07", what: format!("{} refundable transfer(s) of {want_receiver} in one denom are recorded but the recovery by {caller} was refused: {}", page.len(), res.err) });
+                }
             }
         }
         // (v) stray acknowledgements change nothing
